@@ -102,5 +102,8 @@ func (r *Runner) RunHistory(histNo int, o HistOpts) error {
 			r.Evict()
 		}
 	}
+	if r.Cfg.RepeatUpd && o.Rank > 0 {
+		r.RepeatProbe(leaves)
+	}
 	return nil
 }
